@@ -307,16 +307,29 @@ def _read_file_stream(ctx, fx):
 
 
 # ----------------------------------------------------------------------------- CLI
+_CLI_LIMIT_S = 30
+
+
 def _cli_once(argv):
+    """cli.main in this process under an alarm: a run that does not end (a consumer waiting for a producer thread that
+    died, a loop) comes back as rc 'HANG' — termination is part of the statement, and the check itself must end"""
     from sharepoint2text import cli
     out, err = io.StringIO(), io.StringIO()
-    with contextlib.redirect_stdout(out), contextlib.redirect_stderr(err):
-        try:
-            rc = cli.main(argv)
-        except SystemExit as e:
-            rc = f"SystemExit:{e.code}"
-        except BaseException as e:  # noqa
-            rc = f"RAISED:{type(e).__name__}"
+    old = signal.signal(signal.SIGALRM, corpus._alarm)
+    signal.alarm(_CLI_LIMIT_S)
+    try:
+        with contextlib.redirect_stdout(out), contextlib.redirect_stderr(err):
+            try:
+                rc = cli.main(argv)
+            except SystemExit as e:
+                rc = f"SystemExit:{e.code}"
+            except corpus.Timeout:
+                rc = f"HANG: no exit within {_CLI_LIMIT_S} s"
+            except BaseException as e:  # noqa
+                rc = f"RAISED:{type(e).__name__}"
+    finally:
+        signal.alarm(0)
+        signal.signal(signal.SIGALRM, old)
     return rc, out.getvalue(), err.getvalue()
 
 
@@ -577,14 +590,21 @@ def _yields_before_failure(path):
     """library-level classification of an input: ('ok', n) | ('family', n) | ('other', n) with n = results produced before the end"""
     import sharepoint2text
     n = 0
+    old = signal.signal(signal.SIGALRM, corpus._alarm)
+    signal.alarm(_CLI_LIMIT_S)
     try:
         for _ in sharepoint2text.read_file(path):
             n += 1
         return "ok", n
+    except corpus.Timeout:
+        return "hang", n
     except corpus.family():
         return "family", n
     except Exception:  # noqa
         return "other", n
+    finally:
+        signal.alarm(0)
+        signal.signal(signal.SIGALRM, old)
 
 
 def _cli_late_failures(ctx):
